@@ -507,6 +507,18 @@ func (d *dealer) syncRegister(callee *wamp.Session, msg *wamp.Register, match, i
 
 		regID = reg.id
 
+		// A session is a callee of a registration at most once. If it is
+		// already registered, answer with the existing registration ID.
+		for i := range reg.callees {
+			if reg.callees[i] == callee {
+				d.trySend(callee, &wamp.Registered{
+					Request:      msg.Request,
+					Registration: regID,
+				})
+				return metaPubs
+			}
+		}
+
 		// Add callee for the registration.
 		reg.callees = append(reg.callees, callee)
 	}
